@@ -32,6 +32,7 @@ LEVEL_TEXT = ("Generated modules of 0-10 documented functions and methods whose 
               "named as callname:num (and by bare callname when that is unambiguous) must run alone, also when it is "
               "force-disabled; the CLI must exit non-zero iff the failing set is non-empty and print the same numbers. "
               "Randomised exploration with shrinking.")
+LEVEL_ADDED = ("Further kinds: block SKIP on the first line that is switched off again further down (block or inline), comment-only parts with indented comment lines; a quarter of the cases run with analysis='dynamic'.")
 LEVEL_NOTE = ("Trusted: the generator's outcome table (self-tested kind by kind against a hand-written expectation). "
               "The '# pytest.skip' pattern (pytest only) and lower-case / space-less spellings of the disable patterns are not "
               "generated; zero-argument dummy doctests only come into play for names that have no doctest and are not used.")
